@@ -278,6 +278,11 @@ func (c *FederationClient) closeConnection(withBye bool) {
 		}); err != nil && !isClosedError(err) {
 			log.Printf("Error sending bye on federation connection to %s: %s", c.URL(), err)
 		}
+
+		if c.conn == nil {
+			// Sending the bye failed and the connection has been closed already.
+			return
+		}
 	}
 
 	closeMessage := websocket.FormatCloseMessage(websocket.CloseNormalClosure, "")
